@@ -15,13 +15,14 @@ ALLOWED_SINKS = {
     ('RenameTempFileHandler', 1), ('RenameTempFileHandler', 'final_filename'),
     ('debug', None), ('format', None), ('join', None),
     ('ProgressCallbackInvoker', None),
+    ('OnBodyFileObjWriter', 0),  # crt: the non-path branch (fileobj is a stream there)
 }
 
-HOLDERS = {'fileobj', 'self._final_filename', 'final_filepath', 'filename'}
+HOLDERS = {'self._final_filename'}  # attributes that may hold the destination name (locals are tracked as aliases)
 
 # (function, tainted source expressions, note) - the destination name in each front-end
 SOURCES = [
-    ('download.DownloadFilenameOutputManager.get_fileobj_for_io_writes', {'fileobj', 'self._final_filename', 'transfer_future.meta.call_args.fileobj'}),
+    ('download.DownloadFilenameOutputManager.get_fileobj_for_io_writes', {'self._final_filename', 'transfer_future.meta.call_args.fileobj'}),
     ('download.DownloadFilenameOutputManager.get_final_io_task', {'self._final_filename'}),
     ('download.DownloadFilenameOutputManager._get_temp_fileobj', {'self._final_filename'}),
     ('download.IORenameFileTask._main', {'final_filename'}),
@@ -34,7 +35,7 @@ SOURCES = [
     ('processpool.GetObjectWorker._run_get_object_job', {'job.filename'}),
     ('processpool.GetObjectWorker._finalize_download', {'filename'}),
     ('processpool.GetObjectWorker._do_file_rename', {'filename'}),
-    ('crt.S3ClientArgsCreator._get_make_request_args_get_object', {'final_filepath'}),
+    ('crt.S3ClientArgsCreator._get_make_request_args_get_object', {'call_args.fileobj'}),
     ('crt.RenameTempFileHandler.__call__', {'self._final_filename'}),
 ]
 
@@ -82,6 +83,8 @@ def destination_name_is_never_opened(ctx):
             if isinstance(node, ast.Assign) and isinstance(node.value, (ast.Name, ast.Attribute)) and dotted(node.value) in tainted:
                 for t in node.targets:
                     d = dotted(t) or norm(t)
+                    if isinstance(t, ast.Name):
+                        continue  # a local alias: already tainted
                     ctx.ob(f, node, d in HOLDERS, f'the destination name is stored into {d}: only {sorted(HOLDERS)} may hold it (a temp-name slot holding the final name makes every write go to the destination)')
         for c in own_calls(f.node):
             callee = (dotted(c.func) or norm(c.func)).split('.')[-1]
@@ -108,31 +111,31 @@ def destination_name_is_never_opened(ctx):
                        'the CRT must receive into the temporary file, not the destination')
     ctx.need(n >= 12, f'only {n} uses of the destination name found')
     # temp names come from the destination name (same directory => rename is atomic)
-    for qn, src in (('download.DownloadFilenameOutputManager.get_fileobj_for_io_writes', 'fileobj'),
+    for qn, src in (('download.DownloadFilenameOutputManager.get_fileobj_for_io_writes', 'transfer_future.meta.call_args.fileobj'),
                     ('processpool.GetObjectSubmitter._allocate_temp_file', 'download_file_request.filename'),
-                    ('crt.S3ClientArgsCreator._get_make_request_args_get_object', 'final_filepath')):
+                    ('crt.S3ClientArgsCreator._get_make_request_args_get_object', 'call_args.fileobj')):
         f = ctx.func(qn)
         cs = [c for c in own_calls(f.node) if (dotted(c.func) or '').endswith('get_temp_filename')]
-        ctx.ob(f, f'temp name = get_temp_filename({src})', len(cs) == 1 and cs[0].args and norm(cs[0].args[0]) == src, 'the temporary file must live next to the destination')
+        ctx.ob(f, f'temp name = get_temp_filename({src})', len(cs) == 1 and cs[0].args and q.ntext(f, cs[0].args[0]) == src, 'the temporary file must live next to the destination')
     f = ctx.func('__init__.S3Transfer.download_file')
-    defs = [v for _, v in q.local_defs(f, 'temp_filename') if isinstance(v, ast.AST)]
-    ctx.ob(f, 'temp_filename = filename + os.extsep + random_file_extension()', len(defs) == 1 and isinstance(defs[0], ast.BinOp) and norm(defs[0]).startswith('filename +')
-           and 'random_file_extension()' in norm(defs[0]), f'found {[norm(d) for d in defs]}')
+    tn = q.names_defined_by(f, lambda v: isinstance(v, ast.BinOp) and norm(v).startswith('filename +') and 'random_file_extension()' in norm(v))
+    ctx.ob(f, 'temp_filename = filename + os.extsep + random_file_extension()', len(tn) == 1 and len(q.local_defs(f, tn[0])) == 1, f'temp-name locals: {tn}')
     # what gets opened / allocated / received into is the temp name
     f = ctx.func('download.DownloadFilenameOutputManager._get_temp_fileobj')
     cs = [c for c in own_calls(f.node) if (dotted(c.func) or '').endswith('_get_fileobj_from_filename')]
     ctx.ob(f, '_get_fileobj_from_filename(self._temp_filename)', len(cs) == 1 and norm(cs[0].args[0]) == 'self._temp_filename', 'writes must go to the temporary file')
     f = ctx.func('processpool.GetObjectSubmitter._allocate_temp_file')
     cs = [c for c in own_calls(f.node) if (dotted(c.func) or '').endswith('.allocate')]
-    ctx.ob(f, 'allocate(temp_filename, size)', len(cs) == 1 and norm(cs[0].args[0]) == 'temp_filename', 'the pre-allocated file must be the temporary one')
+    ok = len(cs) == 1 and 'get_temp_filename(' in (q.ntext(f, cs[0].args[0]) or '') and q.returned_names(f) == [norm(cs[0].args[0])]
+    ctx.ob(f, 'allocate(temp_filename, size) and return temp_filename', ok, 'the pre-allocated file must be the temporary one, and it is what the jobs write to')
     f = ctx.func('crt.S3ClientArgsCreator._get_make_request_args_get_object')
     st = [n for n in own_nodes(f.node) if isinstance(n, ast.Assign) and isinstance(n.targets[0], ast.Subscript) and isinstance(n.targets[0].slice, ast.Constant)
           and n.targets[0].slice.value == 'recv_filepath']
-    ctx.ob(f, "make_request_args['recv_filepath'] = recv_filepath (the temp name)", len(st) == 1 and norm(st[0].value) == 'recv_filepath'
-           and any('get_temp_filename' in norm(v) for _, v in q.local_defs(f, 'recv_filepath') if isinstance(v, ast.AST)), 'the CRT must receive into the temp file')
+    ctx.ob(f, "make_request_args['recv_filepath'] = recv_filepath (the temp name)", len(st) == 1 and isinstance(st[0].value, ast.Name)
+           and any('get_temp_filename' in norm(v) for _, v in q.local_defs(f, st[0].value.id) if isinstance(v, ast.AST)), 'the CRT must receive into the temp file')
     f = ctx.func('__init__.S3Transfer.download_file')
     cs = [c for c in own_calls(f.node) if (dotted(c.func) or '').endswith('_download_file')]
-    ctx.ob(f, '_download_file(bucket, key, temp_filename, ...)', len(cs) == 1 and len(cs[0].args) >= 3 and norm(cs[0].args[2]) == 'temp_filename', 'legacy downloads must write to the temp name')
+    ctx.ob(f, '_download_file(bucket, key, temp_filename, ...)', len(cs) == 1 and len(cs[0].args) >= 3 and tn and norm(cs[0].args[2]) == tn[0], 'legacy downloads must write to the temp name')
 
 
 @rule('C06.b', ['C06'], floor=5)
@@ -173,7 +176,8 @@ def rename_is_final_and_last(ctx):
     # legacy: rename only in the else branch of the download try
     f = ctx.func('__init__.S3Transfer.download_file')
     rc = [c for c in own_calls(f.node) if (dotted(c.func) or '').endswith('rename_file')]
-    ok = len(rc) == 1 and any(field == 'orelse' for _, field in q.enclosing_trys(rc[0])) and norm(rc[0].args[0]) == 'temp_filename' and norm(rc[0].args[1]) == 'filename'
+    tn = q.names_defined_by(f, lambda v: isinstance(v, ast.BinOp) and norm(v).startswith('filename +'))
+    ok = len(rc) == 1 and any(field == 'orelse' for _, field in q.enclosing_trys(rc[0])) and tn and norm(rc[0].args[0]) == tn[0] and norm(rc[0].args[1]) == 'filename'
     ctx.ob(f, 'rename_file(temp_filename, filename) only when the download did not raise', ok, 'the destination must be replaced only by a complete download')
 
 
@@ -222,14 +226,16 @@ def both_outcomes_handled(ctx):
     ctx.need(trys, 'legacy download_file: no try around _download_file')
     t = trys[0]
     hs = [h for h in t.handlers if h.type is not None and norm(h.type) in ('Exception', 'BaseException')]
-    ok = bool(hs) and any((dotted(c.func) or '').endswith('remove_file') and norm(c.args[0]) == 'temp_filename' for s in hs[0].body for c in ast.walk(s) if isinstance(c, ast.Call)) \
+    tn = q.names_defined_by(f, lambda v: isinstance(v, ast.BinOp) and norm(v).startswith('filename +'))
+    ok = bool(hs) and bool(tn) and any((dotted(c.func) or '').endswith('remove_file') and norm(c.args[0]) == tn[0] for s in hs[0].body for c in ast.walk(s) if isinstance(c, ast.Call)) \
         and isinstance(hs[0].body[-1], ast.Raise)
     ctx.ob(f, 'except Exception: remove_file(temp_filename); raise', ok, 'a failed legacy download must remove its temp file and report the error')
     # legacy ranged download: both controller futures are waited for and their exceptions retrieved
     f = ctx.func('__init__.MultipartDownloader.download_file')
     ws = [c for c in own_calls(f.node) if (dotted(c.func) or '').endswith('futures.wait')]
     rw = norm(kwarg(ws[0], 'return_when')) if ws and kwarg(ws[0], 'return_when') is not None else 'ALL_COMPLETED'
-    subs = [c for c in own_calls(f.node) if (dotted(c.func) or '') == 'controller.submit']
+    ctl = q.names_defined_by(f, lambda v: isinstance(v, ast.Call) and 'executor_cls' in norm(v.func))
+    subs = [c for c in own_calls(f.node) if isinstance(c.func, ast.Attribute) and c.func.attr == 'submit' and norm(c.func.value) in ctl]
     futs = sorted(c._parent.targets[0].id for c in subs if isinstance(c._parent, ast.Assign))
     ok = len(ws) == 1 and rw.split('.')[-1] in ('FIRST_EXCEPTION', 'ALL_COMPLETED') and isinstance(ws[0].args[0], ast.List) \
         and sorted(norm(e) for e in ws[0].args[0].elts) == futs and len(futs) == 2
@@ -262,14 +268,15 @@ def both_outcomes_handled(ctx):
     f = ctx.func('crt.RenameTempFileHandler.__call__')
     rm = [c for c in own_calls(f.node) if (dotted(c.func) or '').endswith('remove_file')]
     rn = [c for c in own_calls(f.node) if (dotted(c.func) or '').endswith('rename_file')]
-    ok = len(rn) == 1 and q.guards_imply(q.guards(rn[0]), 'not error') and any(q.guards_imply(q.guards(c), 'error') and not q.in_handler(c) for c in rm) \
+    ev = q.names_defined_by(f, lambda v: norm(v) == "kwargs['error']")
+    en = ev[0] if ev else 'error'
+    ok = len(rn) == 1 and q.guards_imply(q.guards(rn[0]), f'not {en}') and any(q.guards_imply(q.guards(c), en) and not q.in_handler(c) for c in rm) \
         and all(norm(c.args[0]) == 'self._temp_filename' for c in rm) and norm(rn[0].args[0]) == 'self._temp_filename' and norm(rn[0].args[1]) == 'self._final_filename'
     ctx.ob(f, 'error => remove_file(temp) else rename_file(temp, final)', ok, 'the CRT download handler must publish on success and clean up on error')
     hs = [h for h in own_nodes(f.node) if isinstance(h, ast.ExceptHandler)]
     ok = bool(hs) and any(q.in_handler(c) is hs[0] for c in rm) and any((dotted(c.func) or '').endswith('set_exception') for c in ast.walk(hs[0]) if isinstance(c, ast.Call))
     ctx.ob(f, 'rename failure => remove_file(temp) + set_exception', ok, 'a failing rename must be reported and must not leave the temp file')
-    errs = [n for n in own_nodes(f.node) if isinstance(n, ast.Assign) and norm(n.targets[0]) == 'error']
-    ctx.ob(f, "error = kwargs['error']", len(errs) == 1 and norm(errs[0].value) == "kwargs['error']", 'the outcome must be taken from the CRT done callback')
+    ctx.ob(f, "error = kwargs['error']", len(ev) == 1 and len(q.local_defs(f, ev[0])) == 1, 'the outcome must be taken from the CRT done callback')
     # allocate cleans up after itself
     f = ctx.func('utils.OSUtils.allocate')
     hs = [h for h in own_nodes(f.node) if isinstance(h, ast.ExceptHandler)]
